@@ -2,7 +2,7 @@
  * reader checks C05/C06/C08).
  * case = (format filter options bpb entries)   format/filter/options: byte strings (names as for
  *        archive_write_set_format_by_name / archive_write_add_filter_by_name / archive_write_set_options)
- *   entry = (pathname filetype perm uid gid mtime body symlink hardlink chunk sparse)
+ *   entry = (pathname filetype perm uid gid mtime body symlink hardlink chunk sparse [xattrs])
  *        sparse = list of (offset length) pairs, chunk = write size for the body (0 = all at once)
  * result = (open_status (header_status data_status...)... close_status archive_bytes) */
 #include <archive.h>
@@ -54,6 +54,15 @@ static void run_case(val *c)
 		if (v_len(v_at(ev, 8))) { char *t = v_cstr(v_at(ev, 8)); archive_entry_copy_hardlink(e, t); free(t); }
 		for (j = 0; j < v_len(sp); j++)
 			archive_entry_sparse_add_entry(e, v_ll(v_at(v_at(sp, j), 0)), v_ll(v_at(v_at(sp, j), 1)));
+		if (v_len(ev) > 11) {		/* optional: extended attributes ((name value)...) */
+			val *xs = v_at(ev, 11);
+			for (j = 0; j < v_len(xs); j++) {
+				char *xn = v_cstr(v_at(v_at(xs, j), 0));
+				val *xv = v_at(v_at(xs, j), 1);
+				archive_entry_xattr_add_entry(e, xn, xv->b, v_len(xv));
+				free(xn);
+			}
+		}
 		hr = archive_write_header(a, e);
 		o_open(); o_int(hr);
 		if (hr >= ARCHIVE_WARN && archive_entry_filetype(e) == AE_IFREG) {
